@@ -23,7 +23,8 @@ T_MAX = 10_000_000_000
 
 
 def harness(sym):
-    shape = sym.shard["shape"]
+    shapes = sym.shard["shapes"]           # a shard is a group of stream shapes; the solver picks one (forks)
+    shape = shapes[sym.index("shape", len(shapes))] if len(shapes) > 1 else shapes[0]
     pre = sym.shard.get("pre", "")
     one_time = sym.shard.get("one_time", False)      # all tags of a message carry the same tick time
     with aggregator_world(sym) as w:
@@ -106,12 +107,18 @@ def _pairs(shape):
     return sum(1 for k in shape if len(k) == 2)
 
 
+def _group(shapes, extra, k):
+    """Shards of k shapes each (one worker task amortises its start-up over k shapes)."""
+    return [dict(extra, shapes=shapes[i:i + k]) for i in range(0, len(shapes), k)]
+
+
 def _shards(tier):
+    s2, s3 = _shapes(2), _shapes(3)
     if tier == "quick":
-        return ([{"shape": s} for s in _shapes(3) if _pairs(s) <= 2] + [{"shape": s, "pre": "A"} for s in _shapes(2)])
-    return ([{"shape": s} for s in _shapes(3)] + [{"shape": s, "pre": p} for s in _shapes(2) for p in ("A", "AC")] +
-            [{"shape": s} for s in _shapes(4) if _pairs(s) == 0] +
-            [{"shape": s, "one_time": True} for s in _shapes(4)])
+        return (_group([s for s in s3 if _pairs(s) <= 1], {}, 6) + _group(s2, {}, 10) + _group(s2, {"pre": "A"}, 10))
+    s4 = _shapes(4)
+    return (_group(s3, {}, 4) + _group(s2, {"pre": "A"}, 8) + _group(s2, {"pre": "AC"}, 8) +
+            _group([s for s in s4 if _pairs(s) == 0], {}, 8) + _group(s4, {"one_time": True}, 16))
 
 
 OBLIGATIONS = [Obligation(
@@ -125,8 +132,9 @@ OBLIGATIONS = [Obligation(
              "openpectus.aggregator.data.repository:PlotLogRepository.store_new_tag_info",
              "openpectus.aggregator.data.repository:PlotLogRepository.create_plot_log"],
     symbolic="tick time of every reported tag value (real in [0,1e10], no ordering constraint), reported int values, data-log interval (positive real)",
-    bounds={"quick": "every stream of 3 TagsUpdatedMsg for the active run (each 1-2 tags out of two plotted tags A,B and one unplotted tag C, or a re-delivery "
-                     "of the previous message), and every stream of 2 preceded by a report before the run started",
+    bounds={"quick": "every stream of 3 TagsUpdatedMsg for the active run in which at most one message carries 2 tags (each message: 1-2 tags out of two "
+                     "plotted tags A,B and one unplotted tag C, or a re-delivery of the previous message); every stream of 2 such messages, also "
+                     "preceded by a report before the run started; tick times per tag",
             "thorough": "every stream of 3 messages (per-tag tick times); every stream of 2 preceded by a pre-run report of A or of A and C; every stream of 4 "
                         "single-tag messages / re-deliveries; every stream of 4 messages of 1-2 tags in which the tags of one message share one tick time"},
     assumptions=ASSUMPTIONS_DB + [
